@@ -4,7 +4,15 @@
 //! (Lowrance–Wagner), validated at start-up against a breadth-first search over the four edit
 //! operations; budget table over the BYTE length of `received`.
 use crate::{report, shard_of, Finding};
-use deserr::errors::helpers::did_you_mean;
+use deserr::errors::helpers::did_you_mean as real_did_you_mean;
+
+/// The function under test, with a panic turned into an output that is neither empty nor a suggestion.
+fn did_you_mean(received: &str, accepted: &[&str]) -> String {
+    match monitor::run::quiet_catch(|| real_did_you_mean(received, accepted)) {
+        Ok(s) => s,
+        Err(m) => format!("<the function panicked: {m}>"),
+    }
+}
 use serde_json::{json, Value as J};
 use std::collections::{HashSet, VecDeque};
 use vcore::evidence::{Acc, Finish};
